@@ -138,7 +138,7 @@ def umn_ref(spec: dict, extstrip: str, base: str) -> typing.Tuple[typing.List[st
 
 
 # ------------------------------------------------------------------------------ generator
-def gen_case(rng, idx: int):
+def gen_case(rng, idx: int, base: str = ""):
     used = set()
 
     def word():
@@ -213,7 +213,12 @@ def gen_case(rng, idx: int):
             else:
                 kind = rng.random()
                 name = word() + rng.choice([" link", " site", ""])
-                if kind < 0.4:
+                if kind < 0.1 and existing:
+                    # a block WITHOUT ./ whose absolute path is the selector of a file of this very directory: still a new
+                    # entry of its own (only ./ blocks speak about the directory's files)
+                    path, host, port = base + "/" + rng.choice(existing), "+", "+"
+                    name += " mirror"
+                elif kind < 0.4:
                     path, host, port = "/remote/" + word(), "gopher%d.example.org" % rng.randrange(9), str(rng.choice([70, 7070, 105]))
                 elif kind < 0.6:
                     path, host, port = "/local/" + word(), "+", "+"
@@ -278,8 +283,8 @@ def feature_sig(spec) -> tuple:
 
 def run_case(chk: Check, sc: Scratch, idx: int) -> None:
     rng = chk.subrng("case", idx)
-    t, spec = gen_case(rng, idx)
     depth = rng.choice(["", "/sub", "/a/b"])
+    t, spec = gen_case(rng, idx, depth)
     full = Tree()
     if depth:
         full.subtree(depth.strip("/"), t)
